@@ -189,9 +189,14 @@ func (r *runner) check(d *Doc) {
 		// clause label: the block size
 		if es.Bytes != nil {
 			l := gs.NumLabel["bytes"]
-			if len(l) != 1 || l[0] != *es.Bytes {
-				r.viol("label/"+kind, d, data, "sample %d: expected bytes label [%d], got %v", i, *es.Bytes, l)
+			ok := false
+			for _, b := range es.Bytes {
+				ok = ok || (len(l) == 1 && l[0] == b)
 			}
+			if !ok {
+				r.viol("label/"+kind, d, data, "sample %d: expected bytes label %v, got %v", i, es.Bytes, l)
+			}
+			c.Count("block-size-labels", 1)
 		}
 		for _, l := range gl {
 			r.key = strconv.AppendUint(r.key, l.Addr, 16)
@@ -313,7 +318,10 @@ func sameLocs(a, b []ELoc) bool {
 			return false
 		}
 		for j := range a[i].Lines {
-			if a[i].Lines[j] != b[i].Lines[j] {
+			// function name, file and line of the location table entry; the
+			// system name, start line and column are not compared
+			x, y := a[i].Lines[j], b[i].Lines[j]
+			if x.Func != y.Func || x.File != y.File || x.Line != y.Line {
 				return false
 			}
 		}
@@ -468,7 +476,7 @@ func Run(c *vk.Ctx) {
 	if !r.stopped {
 		for _, k := range []string{"docs/heap", "docs/count", "docs/contention", "docs/threadz", "docs/cpu", "docs/java",
 			"values-unsampled-or-scaled", "cpu/signal-frame-removed", "cpu/duplicate-leaf-removed", "threadz/same-as-previous",
-			"map/location-mapped", "map/adjacent-merged"} {
+			"map/location-mapped", "map/adjacent-merged", "map/adjacent-not-merged", "block-size-labels"} {
 			if c.Counter(k) == 0 {
 				c.Vacuous("no case counted for " + k)
 			}
